@@ -521,8 +521,17 @@ func VfPartIsNoObject() {
 	vfStorePart("bkt", key, up.UploadId, 1, []byte("P"), 0, "e1")
 	partKey := vfPartPath("bkt", key, up.UploadId, 1)[len("bkt/"):]
 	zzvf.Reach("probed")
-	_, gerr := p.GetObject(vfCtx(), &s3.GetObjectInput{Bucket: vfStr("bkt"), Key: &partKey, Range: vfStr("")})
-	zzvf.Assert(gerr != nil, "part-file-is-not-readable-as-an-object")
-	_, herr := p.HeadObject(vfCtx(), &s3.HeadObjectInput{Bucket: vfStr("bkt"), Key: &partKey})
-	zzvf.Assert(herr != nil, "part-file-has-no-object-metadata")
+	switch zzvf.Choice("probe", 3) {
+	case 0:
+		_, gerr := p.GetObject(vfCtx(), &s3.GetObjectInput{Bucket: vfStr("bkt"), Key: &partKey, Range: vfStr("")})
+		zzvf.Assert(gerr != nil, "part-file-is-not-readable-as-an-object")
+	case 1:
+		_, herr := p.HeadObject(vfCtx(), &s3.HeadObjectInput{Bucket: vfStr("bkt"), Key: &partKey})
+		zzvf.Assert(herr != nil, "part-file-has-no-object-metadata")
+	case 2:
+		// the key itself does not exist as an object yet: a HEAD for "part 1 of the object" must not answer from the upload
+		pn := int32(1)
+		_, perr := p.HeadObject(vfCtx(), &s3.HeadObjectInput{Bucket: vfStr("bkt"), Key: &key, PartNumber: &pn})
+		zzvf.Assert(perr != nil, "in-progress-part-is-not-visible-through-head-with-part-number")
+	}
 }
